@@ -8,26 +8,29 @@ import shutil
 import verif
 
 MUX_INVS = ["TypeOK", "C14_MostSpecific", "C14_CascadeIsMostSpecific", "C14_Deterministic", "C14_NoNil",
-            "C14_WholeStanza", "C14_Defaults", "C14_PerChild", "C14_IsDispatch"]
+            "C14_WholeStanza", "C14_BufferIsPrefix", "C14_Defaults", "C14_PerChild", "C14_IsDispatch"]
 MUX_PROPS = ["C14_RegisterRefuses"]
 
 
-def mux_mc_cfg(universe, elements, hids='{"h"}', progs="L"):
-    return ("CONSTANTS\n  Universe <- %s\n  Elements <- %s\n  Hids = %s\n  Progs = \"%s\"\n"
-            "SPECIFICATION Spec\nVIEW View\n" % (universe, elements, hids, progs)
+def mux_mc_cfg(universe, elements, hids='{"h"}', progs="L", inner=None, dev="{}", ctors='= {"new"}'):
+    return ("CONSTANTS\n  Universe <- %s\n  Elements <- %s\n  Hids = %s\n  Progs = \"%s\"\n  Inner %s\n  Dev = %s\n  Ctors %s\n"
+            "SPECIFICATION Spec\nVIEW View\n" % (universe, elements, hids, progs, ("<- " + inner) if inner else "= {}", dev, ctors)
             + "".join("INVARIANT %s\n" % i for i in MUX_INVS)
             + "".join("PROPERTY %s\n" % p for p in MUX_PROPS) + "CHECK_DEADLOCK FALSE\n")
 
 
 def mux_emit_cfg(tier, part):
-    return ('CONSTANTS\n  Universe = {}\n  Elements = {}\n  Hids = {}\n  Progs = "L"\n'
+    return ('CONSTANTS\n  Universe = {}\n  Elements = {}\n  Hids = {}\n  Progs = "L"\n  Inner = {}\n  Dev = {}\n  Ctors = {"new"}\n'
             '  Tier = "%s"\n  Part = %d\nINIT Init\nNEXT ENext\n' % (tier, part))
+
+
+EMIT_JVM = "4g -XX:ParallelGCThreads=2"      # a dozen JVMs run side by side: no 16 GC threads each
 
 
 def emit_parallel(ctx, module, cfgs, timeout=1500):
     """Run several single-worker TLC emissions side by side; returns the TLCResults."""
     with cf.ThreadPoolExecutor(max_workers=len(cfgs)) as ex:
-        futs = [ex.submit(ctx.tlc, module, cfg, None, 1, timeout, False, None, "%s_%d" % (module, i))
+        futs = [ex.submit(ctx.tlc, module, cfg, None, 1, timeout, False, None, "%s_%d" % (module, i), False, EMIT_JVM)
                 for i, cfg in enumerate(cfgs)]
         res = [f.result() for f in futs]
     for r in res:
@@ -115,7 +118,7 @@ def c07_mc_cfg(items, modes='{"plain", "muxreg", "muxunreg"}', length=1, dev="{}
             + "".join("INVARIANT %s\n" % i for i in C07_INVS) + "CHECK_DEADLOCK FALSE\n")
 
 
-C08_DUMMY = "  C8Inputs = {}\n  C8Progs = {}\n  C8Sess = {}\n"
+C08_DUMMY = "  C8Inputs = {}\n  C8Progs = {}\n  C8Sess = {}\n  C8WReads = {}\n  C8Dev = {}\n"
 
 
 def serve_emit_cfg(tier, which, part=1, nparts=1, seed=1):
@@ -127,11 +130,11 @@ def serve_emit_cfgs(ctx, which, nparts):
     return [serve_emit_cfg(ctx.tier, which, p, nparts, ctx.seed) for p in range(1, nparts + 1)]
 
 
-C08_INVS = ["C08_ElementWindow", "C08_NextStartsAtNext", "C08_FromNormalised", "C08_StreamLevelNeverDelivered",
+C08_INVS = ["C08_ElementWindow", "C08_NextStartsAtNext", "C08_FromNormalised", "C08_StreamLevelNeverDelivered", "C08_ResponseToRequester",
             "C08_CloseTagEndsNil", "C08_LocalCloseIrrelevant", "C08_IsReference"]
 
 
-def c08_mc_cfg(inputs="C8InputsMC", progs="C8ProgsMC", sess="C8SessMC"):
+def c08_mc_cfg(inputs="C8InputsMC", progs="C8ProgsMC", sess="C8SessMC", dev="{}"):
     return ("CONSTANTS\n  C7Dev = {}\n  C7Items = {}\n  C7Modes = {}\n  C7Len = 0\n  C8Inputs <- %s\n  C8Progs <- %s\n  C8Sess <- %s\n"
-            "INIT Init8\nNEXT Next8\n" % (inputs, progs, sess)
+            "  C8WReads <- C8WReadsMC\n  C8Dev = %s\nINIT Init8\nNEXT Next8\n" % (inputs, progs, sess, dev)
             + "".join("INVARIANT %s\n" % i for i in C08_INVS) + "CHECK_DEADLOCK FALSE\n")
